@@ -89,6 +89,8 @@ def value_getattr(I, o, name):
         return o.np_getattr(I, name)
     if isinstance(o, (PList, PBytearray)):
         return list_method(I, o, name)
+    if isinstance(o, SView):
+        return sview_method(I, o, name)
     if isinstance(o, SSeq):
         return sseq_method(I, o, name)
     if isinstance(o, PBytes):
@@ -376,6 +378,24 @@ def sseq_method(I, o, name):
             raise OutOfSubset('pop(i) on symbolic sequence')
         return method('pop', pop)
     raise OutOfSubset('method %s on symbolic-length %s' % (name, o.kind))
+
+
+def sview_method(I, o, name):
+    if name == 'append' and o.kind in ('list', 'bytearray'):
+        def append(I_, a, k):
+            x = ops.byte_check(I, a[0]) if o.kind == 'bytearray' else a[0]
+            nxt = z3.Select(o.arr, z3.simplify(ops.zi(o.off) + ops.zi(o.ln)))
+            if I.path.must(zterm(x) == nxt):
+                o.ln = z3.simplify(ops.zi(o.ln) + 1)        # the appended item is the array element right after the window
+                return None
+            if I.path.must(ops.zi(o.ln) == 0):
+                o.pre.append(x)
+                return None
+            raise OutOfSubset('append to a symbolic-length view of an item that is not the next element of its array')
+        return method('append', append)
+    if name == 'decode':
+        raise OutOfSubset('decode of a symbolic-length view')
+    raise OutOfSubset('method %s on symbolic-length %s view' % (name, o.kind))
 
 
 def bytes_method(I, o, name):
